@@ -47,21 +47,22 @@ def update(kind, amt):
     return ".add(%d)" % amt
 
 
-def gen_case(ci, labels, perm, kind, auto):
+def gen_case(ci, labels, perm, kind, auto, etag=None):
+    etag = ci if etag is None else etag       # enum names are unique per declaration, except for deliberate twins (see run)
     n = len(labels)
     lines = ["mod case_%d {" % ci, "    use prometheus::*;", "    use prometheus::local::*;", "    use prometheus_static_metric::*;", "    use lazy_static::lazy_static;"]
     mac = "make_auto_flush_static_metric" if auto else "make_static_metric"
     lines.append("    %s! {" % mac)
     for i, lab in enumerate(labels, 1):
         if lab["enum"]:
-            lines.append("        pub label_enum E%d {" % i)
+            lines.append("        pub label_enum E%s_%d {" % (etag, i))
             for j, v in enumerate(lab["vals"], 1):
                 lines.append("            %s%s," % (fname(i, j), decl_of(i, j, lab)))
             lines.append("        }")
     lines.append("        pub struct S: %s {" % kind)
     for i, lab in enumerate(labels, 1):
         if lab["enum"]:
-            lines.append('            "l%d" => E%d,' % (i, i))
+            lines.append('            "l%d" => E%s_%d,' % (i, etag, i))
         else:
             lines.append('            "l%d" => {' % i)
             for j, v in enumerate(lab["vals"], 1):
@@ -89,7 +90,7 @@ def gen_case(ci, labels, perm, kind, auto):
         acc1 = "s" + "".join(".%s" % fname(i, j) for i, j in enumerate(p, 1))
         forms.append((1, acc1))
         if any_enum:
-            acc2 = "s" + "".join((".get(E%d::%s)" % (i, fname(i, j))) if labels[i - 1]["enum"] else ".%s" % fname(i, j) for i, j in enumerate(p, 1))
+            acc2 = "s" + "".join((".get(E%s_%d::%s)" % (etag, i, fname(i, j))) if labels[i - 1]["enum"] else ".%s" % fname(i, j) for i, j in enumerate(p, 1))
             forms.append((2, acc2))
         if not auto:
             acc3 = "s" + "".join('.try_get("%s").unwrap()' % value_of(i, j, labels[i - 1]) for i, j in enumerate(p, 1))
@@ -157,6 +158,20 @@ def run(ctx):
         code, exp = gen_case(ci, d["labels"], d["perm"], kind, auto)
         src.append(code)
         cases.append({"id": ci, "kind": kind, "auto": auto, "decl": d, "expected": exp})
+    # twins: a second declaration elsewhere in the same crate whose label_enum has the SAME name and the same variants but other
+    # label values (plain <-> renamed).  Each declaration stands on its own: what one macro invocation saw must not leak into another
+    import copy
+    twins = [c for c in cases if any(l["enum"] for l in c["decl"]["labels"])][: (6 if quick else 40)]
+    for c in twins:
+        d2 = copy.deepcopy(c["decl"])
+        for l in d2["labels"]:
+            if l["enum"]:
+                for v in l["vals"]:
+                    v["kind"] = {"plain": "renamed", "renamed": "plain"}.get(v["kind"], v["kind"])
+        ci = len(cases)
+        code, exp = gen_case(ci, d2["labels"], d2["perm"], c["kind"], c["auto"], etag=c["id"])
+        src.append(code)
+        cases.append({"id": ci, "kind": c["kind"], "auto": c["auto"], "decl": d2, "expected": exp, "twin_of": c["id"]})
     src.append("pub fn run_all() -> String {")
     src.append("    let mut out = vec![];")
     for c in cases:
@@ -181,7 +196,7 @@ def run(ctx):
     for c in cases:
         x = results[c["id"]]
         rp = {"case": {"kind": c["kind"], "auto": c["auto"], "decl": c["decl"]}}
-        desc = "%s%s, %d labels %s, vector label order %s" % (c["kind"], " (auto-flush)" if c["auto"] else "", len(c["decl"]["labels"]),
+        desc = "%s%s%s, %d labels %s, vector label order %s" % (c["kind"], " (auto-flush)" if c["auto"] else "", (" (second declaration with the same label_enum names as case %d, other values)" % c["twin_of"]) if "twin_of" in c else "", len(c["decl"]["labels"]),
                                                              [("enum" if l["enum"] else "inline", [v["kind"] for v in l["vals"]]) for l in c["decl"]["labels"]], c["decl"]["perm"])
         if "panic" in x:
             ctx.violation("panic", "%s: %s" % (desc, x["panic"][:300]), rp)
@@ -223,7 +238,7 @@ def run(ctx):
                     "rule": "TLC enumerates label structures (1-3 labels, 1-%d values, inline / label_enum, renamed or not) x permutations of the label order in the backing vector and checks Target bijective / try_get exact; "
                             "a stratified sample is turned into Rust source (macro invocation + driver), compiled and run: every leaf is addressed through field path, get(enum), try_get(str) and a mixed form with leaf-specific amounts; "
                             "after flush the vector must hold exactly the declared children with exactly those totals" % (2 if quick else 3)})
-    ctx.assumptions += ["'all programs' is sampled from the grammar (%d declarations per run); compile-time rejections are not explored; auto-flush timing is bypassed by an explicit flush()" % len(cases)]
+    ctx.assumptions += ["'all programs' is sampled from the grammar (%d declarations per run); compile-time rejections are not explored; here auto-flush timing is bypassed by an explicit flush() (the automatic flush is modelled by AutoFlush.tla and checked in C12)" % len(cases)]
 
 
 def replay(path):
